@@ -212,6 +212,13 @@ def o_c02(meta, ans, ctx):
 
 def o_c07(meta, ans, ctx):
     k = meta.get('kind')
+    if k == 'ser3':
+        toks = dict(t.split(':', 1) for t in ans.split(' ')[1:] if ':' in t)
+        v, it, sl = toks.get('V', ''), toks.get('I', '-'), toks.get('S', '')
+        if not re.fullmatch(r'[0-9a-f]+', v): return 'ser: serializing the vector failed'
+        if len(sl) != len(v): return 'slice-count: the slice writer handed the writer %d bytes, the vector writer %d' % (len(sl) // 2, len(v) // 2)
+        if it != '-' and len(it) != len(v): return 'iter-count: the iterator writer handed the writer %d bytes, the vector writer %d (the deserializers of the vector consume the latter)' % (len(it) // 2, len(v) // 2)
+        return None
     if k == 'layout':
         p = ans.split(' ')
         if len(p) == 4:
